@@ -7,6 +7,7 @@ package main
 import (
 	"fmt"
 	"go/types"
+	"math/big"
 	"sort"
 	"strconv"
 	"strings"
@@ -62,9 +63,37 @@ func (p *program) resolveIntrinsic(fn *ssa.Function, name string) externalFn {
 		// protobuf descriptor registration
 		return func(fr *frame, args []value) value { return zeroResult(fn) }
 	}
+	// protobuf enums: String() through the generated <Type>_name table
+	if fn.Name() == "String" && fn.Signature.Recv() != nil && fn.Pkg != nil {
+		if named, ok := fn.Signature.Recv().Type().(*types.Named); ok {
+			if g, ok2 := fn.Pkg.Members[named.Obj().Name()+"_name"].(*ssa.Global); ok2 {
+				return func(fr *frame, args []value) value {
+					m, _ := (*fr.ex.global(g)).(*gmap)
+					if s, isSym := args[0].(symv); isSym {
+						v := int32(fr.ex.concretize(s.T, "enum.String"))
+						args = []value{v}
+					}
+					if e := m.find(fr.ex, args[0]); e != nil {
+						return e.v
+					}
+					return fmt.Sprint(asInt64(args[0]))
+				}
+			}
+		}
+	}
 	path := p.pkgPathOf(fn)
 	for _, np := range noopPackages {
 		if path == np {
+			// constructors returning a pointer (loggers) hand out a fresh zero object
+			res := fn.Signature.Results()
+			if res.Len() == 1 {
+				if pt, ok := res.At(0).Type().Underlying().(*types.Pointer); ok {
+					return func(fr *frame, args []value) value {
+						cell := zero(pt.Elem())
+						return &cell
+					}
+				}
+			}
 			return func(fr *frame, args []value) value { return zeroResult(fn) }
 		}
 	}
@@ -97,6 +126,17 @@ func init() {
 		fr.ex.assertTerm(tUIDRange(t))
 		return symv{t}
 	})
+	nat := func(kind string, w int) externalFn {
+		return func(fr *frame, a []value) value {
+			ex := fr.ex
+			n := ex.newInput(strArg(fr, a[0]), kind, sInt)
+			lim := intern("const", sInt, new(big.Int).Lsh(big.NewInt(1), uint(w)).String(), 0, 0, nil)
+			ex.assertTerm(tAnd(mk("<=", sBool, tIntConst(0), n), mk("<", sBool, n, lim)))
+			return symv{tNat(n, w)}
+		}
+	}
+	reg(vfPkg+".NatU64", nat("u64", 64))
+	reg(vfPkg+".NatU32", nat("u32", 32))
 	reg(vfPkg+".F64", func(fr *frame, a []value) value { return symv{fr.ex.newInput(strArg(fr, a[0]), "f64", sF64)} })
 	reg(vfPkg+".Int", func(fr *frame, a []value) value {
 		ex := fr.ex
@@ -204,7 +244,12 @@ func init() {
 		return false
 	})
 
+	// printing an error with its stack trace is logging only
+	reg("(*github.com/orda-io/orda/client/pkg/errors.singleOrdaError).Print", func(fr *frame, a []value) value { return nil })
+	reg("(*github.com/orda-io/orda/client/pkg/errors.MultipleOrdaErrors).Print", func(fr *frame, a []value) value { return nil })
+
 	// ------------------------------------------------------------- runtime
+	reg("(runtime.errorString).Error", func(fr *frame, a []value) value { return "runtime error: " + a[0].(string) })
 	reg("runtime.Caller", func(fr *frame, a []value) value { return tuple{uintptr(0), "", 0, false} })
 	reg("runtime.Callers", func(fr *frame, a []value) value { return 0 })
 	reg("runtime.Gosched", func(fr *frame, a []value) value { return nil })
@@ -641,7 +686,7 @@ func (ex *exec) assume(c *Term) {
 	// the solver; but assertions must not pass vacuously, so check now unless
 	// we are still replaying a prefix known to be feasible.
 	if !ex.replaying() {
-		res, _ := ex.solver.Check(nil, nil)
+		res, _ := ex.check(nil, nil)
 		if res == "unsat" {
 			ex.abort("assume", "assumptions unsatisfiable")
 		}
@@ -661,7 +706,7 @@ func (ex *exec) assertProp(c *Term, label string) {
 		ex.recordViolation("assert", label, "assertion is false on this path", nil)
 	}
 	// pending Hash-injectivity side conditions are part of the path condition already
-	res, _ := ex.solver.Check(tNot(c), nil)
+	res, _ := ex.check(tNot(c), nil)
 	switch res {
 	case "unsat":
 		ex.asserts++
